@@ -46,17 +46,23 @@ fn doc_model(rng: &mut Rng, st: &mut Stats) -> DocModel {
     if rng.chance(1, 12) {
         return DocModel { paras: vec![] }; // empty doc comment
     }
-    let np = match rng.below(6) {
-        0..=3 => 1,
-        4 => 2,
-        _ => 3,
+    // once in a while a very long doc comment (> 4 KiB, > 8 KiB)
+    let huge = rng.chance(1, 150);
+    let np = if huge {
+        rng.range(20, 60)
+    } else {
+        match rng.below(6) {
+            0..=3 => 1,
+            4 => 2,
+            _ => 3,
+        }
     };
     let mut paras = Vec::new();
     for _ in 0..np {
-        let nl = rng.range(1, 3);
+        let nl = if huge { rng.range(3, 8) } else { rng.range(1, 3) };
         let mut lines = Vec::new();
         for _ in 0..nl {
-            let nw = rng.range(1, 4);
+            let nw = if huge { rng.range(4, 10) } else { rng.range(1, 4) };
             let mut words: Vec<String> = Vec::new();
             for wi in 0..nw {
                 if rng.chance(1, 7) {
@@ -299,7 +305,7 @@ struct Expectation {
 pub fn run(ctx: &Ctx) -> i32 {
     let n = ctx.tier.pick(15_000u64, 250_000);
     let stats = par_cases(ctx, "documents", n, Duration::from_secs(ctx.tier.pick(80, 900)), |i, rng, st| {
-        let cfg = GenCfg { max_members: 5, max_args: 3, max_type_depth: 2, ann_num: 1, ann_den: 3, ..GenCfg::default() };
+        let cfg = GenCfg { max_members: 5, max_args: 3, max_type_depth: 2, ann_num: 1, ann_den: 3, big: true, repeat_method_names: true, ..GenCfg::default() };
         let mut d = gen::doc(rng, &cfg);
         let crlf = rng.chance(1, 3);
         let nl = if crlf { "\r\n" } else { "\n" };
